@@ -65,6 +65,23 @@ Definition render_part (p : ftype * bytes) : bytes := html_format (css_class (fs
 (* Formatter::format: concatenation of the parts *)
 Definition render (m : list (ftype * bytes)) : bytes := flat_map render_part m.
 
+(* Formatter::format(markup, indent) — the provided method of the trait, which
+   HtmlFormatter inherits: with [indent] two spaces (formatted as a Whitespace
+   part) are put in front and after every part whose text contains a newline *)
+Definition spaces_part : ftype * bytes := (FWhitespace, B "  ").
+
+Definition has_nl (s : bytes) : bool := existsb (fun c => Ascii.eqb c "010") s.
+
+Definition format (m : list (ftype * bytes)) (indent : bool) : bytes :=
+  (if indent then render_part spaces_part else [])
+  ++ flat_map (fun p => render_part p
+                        ++ (if indent && has_nl (snd p) then render_part spaces_part else [])) m.
+
+(* the same output described as a plain markup: the indentation parts inserted *)
+Definition expand (m : list (ftype * bytes)) (indent : bool) : list (ftype * bytes) :=
+  (if indent then [spaces_part] else [])
+  ++ flat_map (fun p => p :: (if indent && has_nl (snd p) then [spaces_part] else [])) m.
+
 (* ---------------- HtmlWriter ---------------- *)
 Inductive fgcolor := Red | Blue | OtherColor.
 Record colorspec := mkSpec { fg : option fgcolor; bold : bool }.
